@@ -733,7 +733,9 @@ func readsIndexZero(call *ssa.Call) bool {
 		}
 		// every store into the index array that precedes the call (same block or a
 		// dominating block) writes the constant 0
-		for _, u := range *al.Referrers() {
+		refs := append([]ssa.Instruction{}, *al.Referrers()...)
+		refs = append(refs, *a.Referrers()...)
+		for _, u := range refs {
 			ia, ok := u.(*ssa.IndexAddr)
 			if !ok {
 				continue
